@@ -1,1 +1,360 @@
-(* placeholder: to be written *)
+(** Executable model of farm-staking/farm-staking-proxy (metastaking: dual-yield tokens).
+
+    Mirrors, function by function and guard by guard:
+      farm-staking/farm-staking-proxy/src/dual_yield_token.rs          (DualYieldTokenAttributes, into_part,
+                                                                         create_dual_yield_tokens)
+      common/traits/fixed-supply-token/src/lib.rs                      (rule_of_three, rule_of_three_non_zero_result)
+      common/modules/utils/src/lib.rs                                  (get_attributes_as_part_of_fixed_supply)
+      common/modules/sc_whitelist_module/src/sc_whitelist_module.rs    (get_orig_caller_from_opt)
+      farm-staking/farm-staking-proxy/src/lp_farm_token.rs             (get_lp_tokens_in_farm_position)
+      farm-staking/farm-staking-proxy/src/proxy_actions/stake.rs       (stakeFarmTokens)
+      farm-staking/farm-staking-proxy/src/proxy_actions/claim.rs       (claimDualYield)
+      farm-staking/farm-staking-proxy/src/proxy_actions/unstake.rs     (unstakeFarmTokens)
+      farm-staking/farm-staking-proxy/src/external_contracts_interactions.rs
+                                                                        (the eight calls to the LP farm, the staking
+                                                                         farm and the pair; which side of the pair's
+                                                                         answers is the staking token)
+      farm-staking/farm-staking-proxy/src/result_types.rs              (send_and_return: what goes back to the caller)
+
+    ASSUME / GUARANTEE.  The LP farm, the staking farm and the pair are an ENVIRONMENT: what they
+    answer in one transaction is the [env_*] argument of the operation (one record per endpoint, one
+    field per returned payment).  The model is the proxy's own code plus its own ledger:
+      - the dual-yield token: attributes per nonce, outstanding supply, holders;
+      - the proxy account's balances of LP-farm tokens, staking-farm tokens (by nonce) and of every
+        fungible token that passes through it.
+    The only thing assumed about a callee inside this file is L0: a payment a callee reports as
+    returned was really transferred to the proxy (the model credits it).  The interface laws L1-L7
+    are the boolean predicates at the end of the file; theorems state which law each clause needs,
+    and the correspondence run evaluates every law on every real answer.
+
+    [e_fail] = a callee rejects the call (slippage in the pair, no safe price available, ...): the
+    nested error aborts the whole transaction.
+
+    Ghost field [s_rel]: LP-farm amount released so far per dual-yield nonce (history variable of
+    property C15, "parts released over the token's life").  No proofs in this file. *)
+From MX Require Import Base.Prelude Gen.Params.
+
+(** token codes *)
+Definition TK_LP : Z := 0.       (* the pair's LP token *)
+Definition TK_STK : Z := 1.      (* staking token = reward token of the staking farm *)
+Definition TK_OTH : Z := 2.      (* the other pool token *)
+Definition TK_REW : Z := 3.      (* LP-farm reward (locked) token *)
+Definition TK_LPF : Z := 10.     (* LP-farm position token *)
+Definition TK_SF : Z := 11.      (* staking-farm position token; unbond tokens are nonces of the same token *)
+Definition TK_DY : Z := 12.      (* dual-yield token *)
+
+(** DualYieldTokenAttributes *)
+Record dattr := mkDA { d_lpn : Z; d_lpa : Z; d_sfn : Z; d_sfa : Z }.
+
+(** a payment: (token code, nonce, amount) *)
+Definition pay := (Z * Z * Z)%type.
+Definition p_tok (p : pay) : Z := fst (fst p).
+Definition p_nonce (p : pay) : Z := snd (fst p).
+Definition p_amt (p : pay) : Z := snd p.
+
+Record st := mkSt {
+  s_attrs : list (Z * dattr);   (* dual-yield nonce -> attributes, every nonce ever created, oldest first *)
+  s_sup : list (Z * Z);         (* dual-yield nonce -> outstanding supply *)
+  s_rel : list (Z * Z);         (* ghost: dual-yield nonce -> LP-farm amount released for it so far *)
+  s_hold : list (Z * Z);        (* nonce*1000 + holder -> dual-yield amount held *)
+  s_next : Z;                   (* nonce of the last dual-yield token created *)
+  s_lpf : list (Z * Z);         (* proxy's balance of LP-farm tokens by nonce *)
+  s_sf : list (Z * Z);          (* proxy's balance of staking-farm tokens by nonce *)
+  s_fung : list (Z * Z)         (* proxy's balance of the other tokens by token code *)
+}.
+
+Definition init_st : st := mkSt [] [] [] [] 0 [] [] [].
+
+Definition set_dy (s : st) (at_ : list (Z * dattr)) (sup rel hold : list (Z * Z)) (next : Z) : st :=
+  mkSt at_ sup rel hold next (s_lpf s) (s_sf s) (s_fung s).
+Definition set_lpf (s : st) (l : list (Z * Z)) : st :=
+  mkSt (s_attrs s) (s_sup s) (s_rel s) (s_hold s) (s_next s) l (s_sf s) (s_fung s).
+Definition set_sf (s : st) (l : list (Z * Z)) : st :=
+  mkSt (s_attrs s) (s_sup s) (s_rel s) (s_hold s) (s_next s) (s_lpf s) l (s_fung s).
+Definition set_fung (s : st) (l : list (Z * Z)) : st :=
+  mkSt (s_attrs s) (s_sup s) (s_rel s) (s_hold s) (s_next s) (s_lpf s) (s_sf s) l.
+
+Definition hkey (n h : Z) : Z := n * 1000 + h.
+Definition hold (s : st) (n h : Z) : Z := aget (s_hold s) (hkey n h).
+Definition sup (s : st) (n : Z) : Z := aget (s_sup s) n.
+Definition rel (s : st) (n : Z) : Z := aget (s_rel s) n.
+Definition lpf_bal (s : st) (k : Z) : Z := aget (s_lpf s) k.
+Definition sf_bal (s : st) (k : Z) : Z := aget (s_sf s) k.
+Definition fbal (s : st) (t : Z) : Z := aget (s_fung s) t.
+
+Fixpoint find_attr (l : list (Z * dattr)) (n : Z) : option dattr :=
+  match l with
+  | [] => None
+  | (k, a) :: t => if k =? n then Some a else find_attr t n
+  end.
+
+Definition get_attr (s : st) (n : Z) : result dattr :=
+  match find_attr (s_attrs s) n with Some a => Ok a | None => Err EGuard end.
+
+(** ------------------------------------------------------------------ the proxy account's ledger *)
+Definition credit_lpf (s : st) (k x : Z) : st := set_lpf s (aset (s_lpf s) k (lpf_bal s k + x)).
+Definition credit_sf (s : st) (k x : Z) : st := set_sf s (aset (s_sf s) k (sf_bal s k + x)).
+Definition credit_f (s : st) (t x : Z) : st := set_fung s (aset (s_fung s) t (fbal s t + x)).
+(** outgoing transfers: the VM aborts when the balance is insufficient *)
+Definition debit_lpf (s : st) (k x : Z) : result st :=
+  do b <- sub_chk (lpf_bal s k) x; Ok (set_lpf s (aset (s_lpf s) k b)).
+Definition debit_sf (s : st) (k x : Z) : result st :=
+  do b <- sub_chk (sf_bal s k) x; Ok (set_sf s (aset (s_sf s) k b)).
+Definition debit_f (s : st) (t x : Z) : result st :=
+  do b <- sub_chk (fbal s t) x; Ok (set_fung s (aset (s_fung s) t b)).
+
+(** ------------------------------------------------------------------ fixed-supply-token *)
+(** rule_of_three_non_zero_result: full * part / total, "Zero amount" when the result is 0 *)
+Definition rule3_nz (total part full : Z) : result Z :=
+  do r <- (if part =? total then Ok full else div_chk (full * part) total);
+  check negb (r =? 0) else EGuard;
+  Ok r.
+
+(** DualYieldTokenAttributes::into_part (total supply = staking_farm_token_amount) *)
+Definition dy_part (a : dattr) (p : Z) : result dattr :=
+  if p =? d_sfa a then Ok a else
+  do l <- rule3_nz (d_sfa a) p (d_lpa a);
+  Ok (mkDA (d_lpn a) l (d_sfn a) p).
+
+(** One dual-yield payment (n, p) of caller [c], as every endpoint treats it:
+    the payment arrives (the VM rejects zero amounts and insufficient balances),
+    get_attributes_as_part_of_fixed_supply reads the attributes of the nonce and takes the part,
+    the payment is burned, and the farm tokens of the part leave the proxy's balance (they are
+    attached to the farm calls made later in the same transaction; a failing transfer reverts the
+    transaction, so the position inside the transaction is not observable). *)
+Definition release (s : st) (c n p : Z) : result (st * dattr) :=
+  check (0 <? p) else EGuard;
+  do h <- sub_chk (hold s n c) p;
+  do su <- sub_chk (sup s n) p;
+  do a <- get_attr s n;
+  do part <- dy_part a p;
+  let s1 := set_dy s (s_attrs s) (aset (s_sup s) n su) (aset (s_rel s) n (rel s n + d_lpa part))
+                   (aset (s_hold s) (hkey n c) h) (s_next s) in
+  do s2 <- debit_lpf s1 (d_lpn part) (d_lpa part);
+  do s3 <- debit_sf s2 (d_sfn part) (d_sfa part);
+  Ok (s3, part).
+
+Fixpoint release_all (s : st) (c : Z) (ps : list pay) : result (st * list dattr) :=
+  match ps with
+  | [] => Ok (s, [])
+  | p :: t =>
+      do (s1, part) <- release s c (p_nonce p) (p_amt p);
+      do (s2, parts) <- release_all s1 c t;
+      Ok (s2, part :: parts)
+  end.
+
+(** create_dual_yield_tokens: nft_create of [d_sfa a] units with attributes [a] (the VM rejects a zero
+    quantity), sent to [c].  The farm tokens recorded in [a] are in the proxy's balance from here on
+    (L0: the callee that reported them transferred them). *)
+Definition mint_dy (s : st) (c : Z) (a : dattr) : result (st * Z) :=
+  check (0 <? d_sfa a) else EGuard;
+  let n := s_next s + 1 in
+  let s1 := set_dy s (s_attrs s ++ [(n, a)]) (aset (s_sup s) n (sup s n + d_sfa a)) (s_rel s)
+                   (aset (s_hold s) (hkey n c) (hold s n c + d_sfa a)) n in
+  Ok (credit_sf (credit_lpf s1 (d_lpn a) (d_lpa a)) (d_sfn a) (d_sfa a), n).
+
+(** ------------------------------------------------------------------ environment answers *)
+(** the pair answers with two payments (first pool token, second pool token): (token, amount, token, amount) *)
+Definition two := (Z * Z * Z * Z)%type.
+
+(** external_contracts_interactions.rs picks the staking-token side of a pair answer:
+    (staking amount, other token, other amount), "Invalid ..." when neither side is the staking token *)
+Definition pick_staking (r : two) : result (Z * Z * Z) :=
+  let '(t1, a1, t2, a2) := r in
+  if t1 =? TK_STK then Ok (a1, t2, a2)
+  else if t2 =? TK_STK then Ok (a2, t1, a1)
+  else Err EGuard.
+
+Record env_stake := mkES {
+  es_fail : bool;
+  es_sp : two;                          (* updateAndGetTokensForGivenPositionWithSafePrice *)
+  es_sfn : Z; es_sfa : Z; es_bs : Z;    (* stakeFarmThroughProxy: new staking-farm token, boosted rewards *)
+  es_lpn : Z; es_lpa : Z; es_bl : Z     (* mergeFarmTokens of the LP farm: merged token, boosted rewards *)
+}.
+Record env_claim := mkEC {
+  ec_fail : bool;
+  ec_sp : two;
+  ec_lpn : Z; ec_lpa : Z; ec_rl : Z;    (* LP farm claimRewards: new farm token, rewards *)
+  ec_sfn : Z; ec_sfa : Z; ec_rs : Z     (* claimRewardsWithNewValue: new staking-farm token, rewards *)
+}.
+Record env_unstake := mkEU {
+  eu_fail : bool;
+  eu_lp : Z; eu_rl : Z;                 (* LP farm exitFarm: LP tokens, rewards *)
+  eu_rm : two;                          (* pair removeLiquidity *)
+  eu_ubn : Z; eu_uba : Z; eu_rs : Z     (* unstakeFarmThroughProxy: unbond token, rewards *)
+}.
+
+(** calls made to the environment, with the arguments that matter to C15 *)
+Inductive call :=
+| CSafePrice (liq : Z)                               (* pair.updateAndGetTokensForGivenPositionWithSafePrice *)
+| CStkEnter (value : Z) (toks : list (Z * Z))         (* staking.stakeFarmThroughProxy(value) + farm tokens *)
+| CLpMerge (toks : list (Z * Z))                      (* lpfarm.mergeFarmTokens *)
+| CLpClaim (n a : Z)                                  (* lpfarm.claimRewards *)
+| CStkClaim (n a value : Z)                           (* staking.claimRewardsWithNewValue(value) *)
+| CLpExit (n a : Z)                                   (* lpfarm.exitFarm *)
+| CPairRemove (lp m1 m2 : Z)                          (* pair.removeLiquidity *)
+| CStkUnstake (stk n a : Z).                          (* staking.unstakeFarmThroughProxy: staking tokens + farm token *)
+
+Definition outs := list Z.
+
+(** ------------------------------------------------------------------ operations *)
+Inductive mop :=
+| Stake (c : Z) (oc : bool) (pays : list pay) (e : env_stake)
+| Claim (c : Z) (oc : bool) (pays : list pay) (e : env_claim)
+| Unstake (c : Z) (oc : bool) (pays : list pay) (m1 m2 : Z) (e : env_unstake)
+| Xfer (src dst n amt : Z).
+
+(** get_orig_caller_from_opt: an explicit original caller is accepted from whitelisted contracts
+    only; the accounts of this model are plain users *)
+Definition orig_caller_ok (oc : bool) : bool := negb oc.
+
+Definition is_dy (p : pay) : bool := p_tok p =? TK_DY.
+
+(** stakeFarmTokens.  outputs: [new dual-yield nonce; amount; staking boosted rewards; LP-farm boosted rewards] *)
+Definition ep_stake (s : st) (c : Z) (oc : bool) (pays : list pay) (e : env_stake)
+  : result (st * outs * list call) :=
+  check orig_caller_ok oc else EPerm;
+  match pays with
+  | [] => Err EGuard                                              (* get_non_empty_payments *)
+  | first :: adds =>
+      check forallb (fun p => 0 <? p_amt p) pays else EGuard;      (* VM: no zero-amount transfers *)
+      check (p_tok first =? TK_LPF) else EGuard;                   (* "Invalid first payment" *)
+      check forallb is_dy adds else EGuard;                        (* require_all_same_token *)
+      let k := p_nonce first in
+      let a := p_amt first in
+      do (s1, parts) <- release_all s c adds;
+      let liq := a in        (* get_lp_tokens_in_farm_position: into_part(a).current_farm_amount = a *)
+      check negb (es_fail e) else EExt;
+      do (v, _, _) <- pick_staking (es_sp e);                      (* get_lp_tokens_safe_price *)
+      let sf_toks := map (fun p => (d_sfn p, d_sfa p)) parts in
+      let lp_toks := map (fun p => (d_lpn p, d_lpa p)) parts in
+      (* staking_farm_enter: answer credited (L0) *)
+      let s2 := credit_f s1 TK_STK (es_bs e) in
+      (* merge_lp_farm_tokens: without additional tokens the base token is kept as it is *)
+      let '(s3, lpn, lpa, bl, mcall) :=
+        match adds with
+        | [] => (s2, k, a, 0, [])
+        | _ => (credit_f s2 TK_REW (es_bl e), es_lpn e, es_lpa e, es_bl e, [CLpMerge (lp_toks ++ [(k, a)])])
+        end in
+      do (s4, n) <- mint_dy s3 c (mkDA lpn lpa (es_sfn e) (es_sfa e));
+      (* send_and_return *)
+      do s5 <- debit_f s4 TK_STK (es_bs e);
+      do s6 <- debit_f s5 TK_REW bl;
+      Ok (s6, [n; es_sfa e; es_bs e; bl], [CSafePrice liq; CStkEnter v sf_toks] ++ mcall)
+  end.
+
+(** claimDualYield.  outputs: [LP-farm rewards; staking rewards; new dual-yield nonce; amount] *)
+Definition ep_claim (s : st) (c : Z) (oc : bool) (pays : list pay) (e : env_claim)
+  : result (st * outs * list call) :=
+  check orig_caller_ok oc else EPerm;
+  match pays with
+  | [p] =>                                                         (* single_esdt *)
+      check (p_tok p =? TK_DY) else EGuard;                        (* require_same_token *)
+      do (s1, part) <- release s c (p_nonce p) (p_amt p);
+      let liq := d_lpa part in                                     (* get_lp_tokens_in_farm_position *)
+      check negb (ec_fail e) else EExt;
+      do (v, _, _) <- pick_staking (ec_sp e);
+      let s2 := credit_f (credit_f s1 TK_REW (ec_rl e)) TK_STK (ec_rs e) in
+      do (s3, n) <- mint_dy s2 c (mkDA (ec_lpn e) (ec_lpa e) (ec_sfn e) (ec_sfa e));
+      do s4 <- debit_f s3 TK_REW (ec_rl e);
+      do s5 <- debit_f s4 TK_STK (ec_rs e);
+      Ok (s5, [ec_rl e; ec_rs e; n; ec_sfa e],
+          [CSafePrice liq; CLpClaim (d_lpn part) (d_lpa part); CStkClaim (d_sfn part) (d_sfa part) v])
+  | _ => Err EGuard
+  end.
+
+(** unstakeFarmTokens.  outputs: [other pool token amount; LP-farm rewards; staking rewards; unbond nonce; unbond amount] *)
+Definition ep_unstake (s : st) (c : Z) (oc : bool) (pays : list pay) (m1 m2 : Z) (e : env_unstake)
+  : result (st * outs * list call) :=
+  check orig_caller_ok oc else EPerm;
+  match pays with
+  | [p] =>
+      check (p_tok p =? TK_DY) else EGuard;
+      do (s1, part) <- release s c (p_nonce p) (p_amt p);
+      check negb (eu_fail e) else EExt;
+      (* lp_farm_exit *)
+      let s2 := credit_f (credit_f s1 TK_LP (eu_lp e)) TK_REW (eu_rl e) in
+      (* pair_remove_liquidity *)
+      do s3 <- debit_f s2 TK_LP (eu_lp e);
+      let '(t1, a1, t2, a2) := eu_rm e in
+      let s4 := credit_f (credit_f s3 t1 a1) t2 a2 in
+      do (stk, ot, oa) <- pick_staking (eu_rm e);
+      (* staking_farm_unstake: staking tokens + the farm token of the part (already debited) *)
+      do s5 <- debit_f s4 TK_STK stk;
+      let s6 := credit_f (credit_sf s5 (eu_ubn e) (eu_uba e)) TK_STK (eu_rs e) in
+      (* send_and_return *)
+      do s7 <- debit_f s6 ot oa;
+      do s8 <- debit_f s7 TK_REW (eu_rl e);
+      do s9 <- debit_f s8 TK_STK (eu_rs e);
+      do s10 <- debit_sf s9 (eu_ubn e) (eu_uba e);
+      Ok (s10, [oa; eu_rl e; eu_rs e; eu_ubn e; eu_uba e],
+          [CLpExit (d_lpn part) (d_lpa part); CPairRemove (eu_lp e) m1 m2; CStkUnstake stk (d_sfn part) (d_sfa part)])
+  | _ => Err EGuard
+  end.
+
+(** plain ESDT transfer of dual-yield tokens between two accounts *)
+Definition ep_xfer (s : st) (src dst n amt : Z) : result (st * outs * list call) :=
+  check (0 <? amt) else EGuard;
+  do h <- sub_chk (hold s n src) amt;
+  let l := aset (s_hold s) (hkey n src) h in
+  let s1 := set_dy s (s_attrs s) (s_sup s) (s_rel s) l (s_next s) in
+  Ok (set_dy s1 (s_attrs s1) (s_sup s1) (s_rel s1) (aset (s_hold s1) (hkey n dst) (hold s1 n dst + amt)) (s_next s1), [], []).
+
+Definition step (s : st) (op : mop) : result (st * outs * list call) :=
+  match op with
+  | Stake c oc pays e => ep_stake s c oc pays e
+  | Claim c oc pays e => ep_claim s c oc pays e
+  | Unstake c oc pays m1 m2 e => ep_unstake s c oc pays m1 m2 e
+  | Xfer src dst n amt => ep_xfer s src dst n amt
+  end.
+
+(** A failed transaction reverts: the runner keeps the old state. *)
+Definition step_total (s : st) (op : mop) : st :=
+  match step s op with Ok (s', _, _) => s' | Err _ => s end.
+
+Definition run (s : st) (ops : list mop) : st := fold_left step_total ops s.
+
+(** ------------------------------------------------------------------ interface laws
+    Evaluated on every real answer by Run/MetaStakingRun.v and tools/props/c15.py; hypotheses of the
+    theorems that need them (Props/C15.v says which). *)
+Definition sum_sfa (parts : list dattr) : Z := fold_right (fun p acc => d_sfa p + acc) 0 parts.
+Definition sum_lpa (parts : list dattr) : Z := fold_right (fun p acc => d_lpa p + acc) 0 parts.
+
+(** L1  LP farm claimRewards returns one farm token of the amount it was given *)
+Definition law_L1 (part : dattr) (e : env_claim) : bool := ec_lpa e =? d_lpa part.
+(** L2  LP farm mergeFarmTokens returns one farm token whose amount is the sum of the amounts given *)
+Definition law_L2 (a : Z) (parts : list dattr) (e : env_stake) : bool := es_lpa e =? a + sum_lpa parts.
+(** L3  stakeFarmThroughProxy(v, toks) returns a farm token of amount v + sum toks *)
+Definition law_L3 (v : Z) (parts : list dattr) (e : env_stake) : bool := es_sfa e =? v + sum_sfa parts.
+(** L4  claimRewardsWithNewValue(v) returns a farm token of amount v *)
+Definition law_L4 (v : Z) (e : env_claim) : bool := ec_sfa e =? v.
+(** L5  unstakeFarmThroughProxy returns an unbond token of exactly the staking-token payment *)
+Definition law_L5 (stk : Z) (e : env_unstake) : bool := eu_uba e =? stk.
+(** L6  the pair answers with one payment per pool token, the staking token being one of them *)
+Definition law_L6 (r : two) : bool :=
+  let '(t1, _, t2, _) := r in
+  ((t1 =? TK_STK) && (t2 =? TK_OTH)) || ((t1 =? TK_OTH) && (t2 =? TK_STK)).
+(** L7  the safe-price answer is the function of Model/SafePrice.v characterised by C13
+        ([QLpDef liq]); stated in Proofs/MetaStakingProofs.v where that model is imported. *)
+
+(** amounts are BigUint: never negative *)
+Definition two_nonneg (r : two) : bool := let '(_, a1, _, a2) := r in (0 <=? a1) && (0 <=? a2).
+Definition env_nonneg (op : mop) : bool :=
+  match op with
+  | Stake _ _ _ e => two_nonneg (es_sp e) && (0 <=? es_sfa e) && (0 <=? es_bs e) && (0 <=? es_lpa e) && (0 <=? es_bl e)
+  | Claim _ _ _ e => two_nonneg (ec_sp e) && (0 <=? ec_lpa e) && (0 <=? ec_rl e) && (0 <=? ec_sfa e) && (0 <=? ec_rs e)
+  | Unstake _ _ _ _ _ e => two_nonneg (eu_rm e) && (0 <=? eu_lp e) && (0 <=? eu_rl e) && (0 <=? eu_uba e) && (0 <=? eu_rs e)
+  | Xfer _ _ _ _ => true
+  end.
+
+(** net staking value registered in the staking farm by the calls of one transaction (the change of
+    the staking farm's farm-token supply when the farm obeys L3 / L4): the harness compares it with
+    the real change *)
+Fixpoint registered (cs : list call) : Z :=
+  match cs with
+  | [] => 0
+  | CStkEnter v _ :: t => v + registered t
+  | CStkClaim _ a v :: t => v - a + registered t
+  | CStkUnstake _ _ a :: t => registered t - a
+  | _ :: t => registered t
+  end.
